@@ -839,6 +839,12 @@ impl<'s> Semantics<'s> {
                 offset = temp.into();
             }
 
+            // the bit offset is taken modulo the operand size
+            let offset = Expr::and(
+                offset,
+                expr_const(base.bits() as u64 - 1, base.bits()),
+            )?;
+
             let temp = self.temp(0, base.bits());
             block.assign(temp.clone(), Expr::shr(base, offset)?);
             block.assign(scalar("CF", 1), Expr::trun(1, temp.into())?);
@@ -882,6 +888,12 @@ impl<'s> Semantics<'s> {
                 block.assign(temp.clone(), Expr::zext(base.bits(), offset.clone())?);
                 offset = temp.into();
             }
+
+            // the bit offset is taken modulo the operand size
+            let offset = Expr::and(
+                offset,
+                expr_const(base.bits() as u64 - 1, base.bits()),
+            )?;
 
             // this handles the assign to CF
             let temp = self.temp(1, base.bits());
@@ -931,6 +943,12 @@ impl<'s> Semantics<'s> {
                 block.assign(temp.clone(), Expr::zext(base.bits(), offset.clone())?);
                 offset = temp.into();
             }
+
+            // the bit offset is taken modulo the operand size
+            let offset = Expr::and(
+                offset,
+                expr_const(base.bits() as u64 - 1, base.bits()),
+            )?;
 
             // this handles the assign to CF
             let temp = self.temp(1, base.bits());
@@ -982,6 +1000,12 @@ impl<'s> Semantics<'s> {
                 block.assign(temp.clone(), Expr::zext(base.bits(), offset.clone())?);
                 offset = temp.into();
             }
+
+            // the bit offset is taken modulo the operand size
+            let offset = Expr::and(
+                offset,
+                expr_const(base.bits() as u64 - 1, base.bits()),
+            )?;
 
             // this handles the assign to CF
             let temp = self.temp(1, base.bits());
